@@ -27,7 +27,7 @@ ASSUMPTIONS = [
 ]
 MIN_NONTRIVIAL = {"quick": 300, "thorough": 2500}
 
-CELLS = ["sc", "fcc", "bcc", "hcp", "rhomb_bi", "rutile", "betasn", "ortho_p", "ortho_c", "mono_p", "mono_c", "tric2", "wurtzite", "rocksalt", "ortho_f", "ortho_i", "zincblende"]
+CELLS = ["sc", "fcc", "bcc", "hcp", "rhomb_bi", "rutile", "betasn", "ortho_p", "ortho_c", "ortho_a", "mono_p", "mono_c", "tric2", "wurtzite", "rocksalt", "ortho_f", "ortho_i", "zincblende"]
 
 
 def gen_cases(tier, seed):
@@ -58,11 +58,16 @@ def gen_cases(tier, seed):
             sub.append({"mesh": mesh, "shift": shift, "gamma": bool(rng.integers(2)), "tr": bool(rng.integers(4) != 0), "bz": bool(rng.integers(2)),
                         "sym": bool(rng.integers(4) != 0)})
         cases.append({"kind": "grid", "crystal": {"name": name, "rot_seed": int(rng.integers(100)) if rng.integers(2) else None}, "sub": sub, "fseed": int(rng.integers(10 ** 6))})
-    # deterministic witness of the listed known finding (so that every run observes it or reports its absence)
+    # deterministic regression witnesses of the repaired half-shift defect (equivalent axes sampled with different half-shifts; spglib's
+    # reduction is wrong for a -> -b without time reversal and for b <-> c): every run observes them
     cases.append({"kind": "grid", "crystal": {"name": "mono_c", "rot_seed": None}, "fseed": 1,
                   "sub": [{"mesh": [5, 5, 4], "shift": [0.5, 0, 0], "gamma": False, "tr": False, "bz": False, "sym": True},
                           {"mesh": [5, 5, 4], "shift": [0.5, 0, 0], "gamma": False, "tr": True, "bz": False, "sym": True}]})
-    names = ["sc", "fcc", "bcc", "hcp", "rutile", "rocksalt", "ortho_c", "mono_p", "tric2", "wurtzite", "rhomb_bi", "zincblende", "betasn", "diamond"]
+    cases.append({"kind": "grid", "crystal": {"name": "ortho_a", "rot_seed": None}, "fseed": 2,
+                  "sub": [{"mesh": [5, 4, 4], "shift": sh, "gamma": g, "tr": tr, "bz": False, "sym": True}
+                          for sh in ([0, 0.5, 0], [0, 0, 0.5], [0.5, 0, 0.5], [0.5, 0.5, 0.5]) for tr in (True, False) for g in (False, True)]
+                  + [{"mesh": m, "shift": None, "gamma": False, "tr": tr, "bz": False, "sym": True} for m in ([4, 3, 5], [4, 6, 4], [3, 5, 5]) for tr in (True, False)]})
+    names = ["sc", "fcc", "bcc", "hcp", "rutile", "rocksalt", "ortho_c", "ortho_a", "mono_c", "mono_p", "tric2", "wurtzite", "rhomb_bi", "zincblende", "betasn", "diamond"]
     for b in range(28 if tier == "quick" else 200):
         name = names[b % len(names)]
         k = int(rng.integers(2, 6))
